@@ -1116,18 +1116,54 @@ package xmpp
 // appended if missing; the id the waiter is registered under is the id on the
 // wire.
 //@ func (*Session).SendPresence
+// a reply is awaited for every presence but an error presence; the element sent is the one read from the caller's reader
+//@   ghost ty string
+//@   ghost el xml.Token
+//@   callsite Token#1
+//@     after: el = ret0
+//@   callsite getIDTyp#1
+//@     after: ty = ret3
 //@   callsite (*Session).sendResp#1
 //@     assert[C05,C06] arg2 != "" && (exists k int :: 0 <= k && k < len(arg4.Attr) && unq(arg4.Attr[k], "id") && arg4.Attr[k].Value == arg2)
+//@     assert[C05,C06] ty != "error"
+//@     assert[C05,C06] typeof(el) == xml.StartElement && arg4.Name == el.(xml.StartElement).Name
+//@   callsite (*Session).SendElement#1
+//@     assert[C05,C06] ty == "error"
+//@     assert[C05,C06] typeof(el) == xml.StartElement && arg3.Name == el.(xml.StartElement).Name
 //@   callsite foreign#*
 //@     preserves start.Attr
 //@ func (*Session).SendMessage
+// a reply is awaited for every message but an error message
+//@   ghost ty string
+//@   ghost el xml.Token
+//@   callsite Token#1
+//@     after: el = ret0
+//@   callsite getIDTyp#1
+//@     after: ty = ret3
 //@   callsite (*Session).sendResp#1
 //@     assert[C05,C06] arg2 != "" && (exists k int :: 0 <= k && k < len(arg4.Attr) && unq(arg4.Attr[k], "id") && arg4.Attr[k].Value == arg2)
+//@     assert[C05,C06] ty != "error"
+//@     assert[C05,C06] typeof(el) == xml.StartElement && arg4.Name == el.(xml.StartElement).Name
+//@   callsite (*Session).SendElement#1
+//@     assert[C05,C06] ty == "error"
+//@     assert[C05,C06] typeof(el) == xml.StartElement && arg3.Name == el.(xml.StartElement).Name
 //@   callsite foreign#*
 //@     preserves start.Attr
 //@ func (*Session).SendIQ
+// a reply is awaited exactly for get and set IQs
+//@   ghost ty string
+//@   ghost el xml.Token
+//@   callsite Token#1
+//@     after: el = ret0
+//@   callsite getIDTyp#1
+//@     after: ty = ret3
 //@   callsite (*Session).sendResp#1
 //@     assert[C05,C06] arg2 != "" && (exists k int :: 0 <= k && k < len(arg4.Attr) && unq(arg4.Attr[k], "id") && arg4.Attr[k].Value == arg2)
+//@     assert[C05,C06] ty == "get" || ty == "set"
+//@     assert[C05,C06] typeof(el) == xml.StartElement && arg4.Name == el.(xml.StartElement).Name
+//@   callsite (*Session).SendElement#1
+//@     assert[C05,C06] ty != "get" && ty != "set"
+//@     assert[C05,C06] typeof(el) == xml.StartElement && arg3.Name == el.(xml.StartElement).Name
 //@   callsite foreign#*
 //@     preserves start.Attr
 
